@@ -114,6 +114,9 @@ func (x *Exec) invoke(st *State, ins ssa.Instruction, c *ssa.CallCommon, fnv Val
 		}
 	}
 	if b, ok := fnv.(*ssa.Builtin); ok {
+		if b.Name() == "close" && st.Frame.Fn == x.Fn && x.FC != nil && len(x.FC.Sites) > 0 {
+			x.siteBefore(st, ins, "close", args)
+		}
 		setRes(x.builtin(st, ins, b, c, args))
 		return true
 	}
